@@ -160,14 +160,14 @@ var typeMembers = map[string][]string{
 	"cons":                 {"list12", "dotted", "nested", "alist", "lamx"},
 	"association list":     {"nil", "alist"},
 	"property list":        {"nil", "list12"},
-	"fixnum":               {"fix0", "fix1", "fixm1", "fix3", "fix2e62"},
-	"integer":              {"fix0", "fix1", "fixm1", "fix3", "fix2e62", "big2e64"},
-	"rational":             {"fix0", "fix1", "fixm1", "fix3", "fix2e62", "big2e64", "ratio"},
-	"real":                 {"fix0", "fix1", "fixm1", "fix3", "fix2e62", "big2e64", "ratio", "dbl", "sgl"},
-	"number":               {"fix0", "fix1", "fixm1", "fix3", "fix2e62", "big2e64", "ratio", "dbl", "sgl"},
+	"fixnum":               {"fix0", "fix1", "fixm1", "fix2", "fix3", "fix4", "fix8", "fix2e62"},
+	"integer":              {"fix0", "fix1", "fixm1", "fix2", "fix3", "fix4", "fix8", "fix2e62", "big2e64"},
+	"rational":             {"fix0", "fix1", "fixm1", "fix2", "fix3", "fix4", "fix8", "fix2e62", "big2e64", "ratio"},
+	"real":                 {"fix0", "fix1", "fixm1", "fix2", "fix3", "fix4", "fix8", "fix2e62", "big2e64", "ratio", "dbl", "sgl"},
+	"number":               {"fix0", "fix1", "fixm1", "fix2", "fix3", "fix4", "fix8", "fix2e62", "big2e64", "ratio", "dbl", "sgl"},
 	"float":                {"dbl", "sgl"},
-	"octet":                {"fix0", "fix1", "fix3"},
-	"string":               {"str0", "str"},
+	"octet":                {"fix0", "fix1", "fix2", "fix3", "fix4", "fix8"},
+	"string":               {"str0", "str", "strl", "stral", "strj"},
 	"character":            {"chr"},
 	"symbol":               {"nil", "t", "sym", "fsym", "kwend", "kwkey"},
 	"keyword":              {"kwend", "kwkey"},
@@ -182,7 +182,7 @@ var typeMembers = map[string][]string{
 	"octets":               {"octets"},
 	"hash-table":           {"hash"},
 	"package":              {"pkg"},
-	"package designator":   {"pkg", "str", "str0", "sym", "fsym", "kwend", "kwkey", "chr", "nil", "t"},
+	"package designator":   {"pkg", "str", "str0", "strl", "stral", "strj", "sym", "fsym", "kwend", "kwkey", "chr", "nil", "t"},
 	"stream":               {"sin0", "sin", "sout"},
 	"input-stream":         {"sin0", "sin"},
 	"output-stream":        {"sout"},
